@@ -167,6 +167,8 @@ def run(spec, tier, seed):
                     'lean_output_tail': out[-3000:] if not ok else '',
                     'failing_input_found': False})
         else:
+            for f in found:
+                f.setdefault('failing_input_found', True)
             violations.extend(found)
 
     # 5. property-specific extra (known findings reproduced by the check itself, etc.)
@@ -892,6 +894,147 @@ def c09_search(ctx, failing, corr, broken):
     return out
 
 
+# ---------------------------------------------------------------------------------------------------
+# C12 / C13: exact rational oracles for the constitutive models
+# ---------------------------------------------------------------------------------------------------
+
+def _elastic_moduli(mu, lam):
+    return {'ShearModulus': mu, 'LameFirstModulus': lam,
+            'YoungModulus': mu * (3 * lam + 2 * mu) / (lam + mu),
+            'IsentropicBulkModulus': lam + 2 * mu / 3, 'IsothermalBulkModulus': lam + 2 * mu / 3,
+            'PWaveModulus': lam + 2 * mu, 'PoissonRatio': lam / (2 * (lam + mu))}
+
+
+def _sym_apply(a, b, t):
+    """a*t + b*tr(t)*I on 6 stored components xx xy xz yy yz zz."""
+    tr = t[0] + t[3] + t[5]
+    return [a * t[0] + b * tr, a * t[1], a * t[2], a * t[3] + b * tr, a * t[4], a * t[5] + b * tr]
+
+
+def model_oracle(e, xs):
+    """Expected outputs (exact rationals) of a model entry on rational inputs, or None."""
+    m = e['meta']
+    M = m['cls'][6:]
+    nf = len(m.get('fields', []))
+    if m['kind'] == 'model-accessor' and M == 'ElasticIsotropicSolid':
+        return [_elastic_moduli(xs[0], xs[1])[m['name']]]
+    if m['kind'] == 'model-accessor':
+        return [xs[m['fields'].index(m['name'])]] if m['name'] in m['fields'] else None
+    if m['kind'] == 'model-virtual':
+        f, t = xs[:nf], xs[nf:nf + 6]
+        name, args = m['name'], m['args']
+        zero = [Fraction(0)] * 6
+        if M == 'ElasticIsotropicSolid':
+            mu, lam = f
+            if name == 'Stress' and args[0] == 'Strain':
+                return _sym_apply(2 * mu, lam, t)
+            if name == 'Strain':
+                return _sym_apply(1 / (2 * mu), -lam / (2 * mu * (2 * mu + 3 * lam)), t)
+            return zero
+        mu = f[0]
+        b = f[1] if nf > 1 else Fraction(0)
+        if name == 'Stress' and args[-1] == 'StrainRate':
+            t = xs[nf + 6 * (len(args) - 1):nf + 6 * len(args)]
+            return _sym_apply(2 * mu, b, t)
+        if name == 'StrainRate':
+            return _sym_apply(1 / (2 * mu), -b / (2 * mu * (2 * mu + 3 * b)), t)
+        return zero
+    return None
+
+
+def close_enough(c, want, fmt, slack_bits=14):
+    if c in ('nan', 'inf', '-inf'):
+        return False
+    got = co.frac_of_canon(c)
+    p = co.FMT[fmt][0]
+    tol = abs(want) * Fraction(1, 2 ** (p - slack_bits)) + Fraction(1, 2 ** 60)
+    return abs(got - want) <= tol
+
+
+def models_search(which):
+    def search(ctx, failing, corr, broken):
+        rng = random.Random(ctx.seed + 12)
+        out = []
+        ents = [e for e in ctx.model if e['meta']['cls'].startswith('model:') and e['meta']['cls'][6:] in which]
+        reqs, info = [], []
+        for e in ents:
+            m = e['meta']
+            for fmt in (32, 64, 80):
+                v = e['instances'][0]['fmts'].get(str(fmt))
+                if v is None:
+                    continue
+                for _ in range(3):
+                    n = v['n_in']
+                    infm = co.input_formats(v['tree'], n, fmt)
+                    vals = []
+                    for i in range(n):
+                        mant = rng.randrange(1, 200)
+                        ex = rng.randrange(-3, 4)
+                        neg = i >= len(m.get('fields', [])) and rng.random() < 0.4
+                        vals.append((neg, mant, ex))
+                    if m['kind'] == 'model-ctor' and m['cls'][6:] == 'ElasticIsotropicSolid' and len(m['args']) == 2:
+                        mu = Fraction(rng.randrange(1, 200), 8)
+                        lam = Fraction(rng.randrange(1, 200), 8)
+                        mod = _elastic_moduli(mu, lam)
+                        import pyfloat
+                        vals = []
+                        for a in m['args']:
+                            r = pyfloat.round_to(mod[a], fmt)
+                            neg, mm, ee = sexpr_dy(r)
+                            vals.append((neg, mm, ee))
+                        info.append((e, fmt, vals, ('rebuild', mu, lam)))
+                    else:
+                        info.append((e, fmt, vals, None))
+                    reqs.append((e['index'], fmt, [co.hex_of(*x) for x in vals], []))
+        if not reqs:
+            return []
+        res, err, rc = ctx.run_native(reqs)
+        for (e, fmt, vals, extra), r in zip(info, res):
+            if r is None or r.get('error'):
+                continue
+            outs = num_outs(r)
+            xs = [_val(x) for x in vals]
+            if extra:
+                want = [extra[1], extra[2]]
+                slack = 20
+            else:
+                want = model_oracle(e, xs)
+                slack = 14
+            if want is None or len(want) != len(outs):
+                continue
+            for i, ((l, c), w) in enumerate(zip(outs, want)):
+                ofmt = min(fmt, int(l.rsplit(':num', 1)[1]), m_afmt(e, fmt))
+                if not close_enough(c, w, ofmt, slack):
+                    out.append({'kind': 'model-oracle', 'entry': e['id'], 'fmt': fmt, 'index': e['index'],
+                                'inputs': [co.hex_of(*x) for x in vals], 'component': i, 'native_output': c,
+                                'textbook_value': str(w),
+                                'what': '%s: output %d is %s, the textbook value is %s (%s)' % (
+                                    e['id'], i, c, float(w), 'rebuilding from reported moduli' if extra else 'formula')})
+                    break
+            if len(out) >= 5:
+                break
+        return out
+    return search
+
+
+def m_afmt(e, fmt):
+    return e['meta'].get('afmt') or fmt
+
+
+def sexpr_dy(fr):
+    import sexpr
+    return sexpr.dyadic(fr)
+
+
+def models_corr(which, seed_off):
+    def f(ctx):
+        sel = [e for e in ctx.model if e['meta']['cls'].startswith('model:') and e['meta']['cls'][6:] in which
+               and not (e['meta']['kind'] == 'model-ctor' and not e['meta']['args'])]
+        return co.correspond(ctx.cache, LEAN, sel, ctx.seed + seed_off, per_entry=8 if ctx.tier == 'quick' else 200,
+                             positive=True)
+    return f
+
+
 def quantity_corr(pred, seed_off, per_quick=2, per_thorough=30):
     def f(ctx):
         sel = [e for e in ctx.model if not e['meta']['cls'].startswith(('unit:', 'model:')) and pred(e)]
@@ -901,6 +1044,27 @@ def quantity_corr(pred, seed_off, per_quick=2, per_thorough=30):
 
 
 SPECS = {
+    'C12': {
+        'id': 'C12', 'level': 'proof',
+        'lean_targets': ['PhQVerif.Audit.C12'],
+        'checkers': [],
+        'correspond': models_corr(('ElasticIsotropicSolid',), 12),
+        'search': models_search(('ElasticIsotropicSolid',)),
+        'always_search': True, 'audit_all': False,
+        'assumptions': ['theorems are over the reals (rounding ignored); "to the precision of each type" is the '
+                        'same-formula theorem plus the bit-exact correspondence',
+                        'the (LameFirstModulus, PoissonRatio) constructor is stated for lambda > 0: at nu = 0 that '
+                        'pair carries no information about mu (DESIGN.md section 7, C12)'],
+    },
+    'C13': {
+        'id': 'C13', 'level': 'proof',
+        'lean_targets': ['PhQVerif.Audit.C13'],
+        'checkers': [],
+        'correspond': models_corr(('CompressibleNewtonianFluid', 'IncompressibleNewtonianFluid'), 13),
+        'search': models_search(('CompressibleNewtonianFluid', 'IncompressibleNewtonianFluid')),
+        'always_search': True, 'audit_all': False,
+        'assumptions': ['theorems are over the reals (rounding ignored)'],
+    },
     'C09': {
         'id': 'C09', 'level': 'proof',
         'lean_targets': ['PhQVerif.Audit.C09'],
